@@ -212,3 +212,5 @@ m("C11-revert-D19-no-rollback-in-delete-node", "C11", "user_actions/user_delete_
 m("C16-revert-D20-sort-in-place", "C16", "data_model/solution_tracks.py",
   "        candidates = sorted(\n            annotator.tracklet_id_to_nodes[track_id], key=lambda n: self.get_time(n)\n        )",
   "        candidates = annotator.tracklet_id_to_nodes[track_id]\n        candidates.sort(key=lambda n: self.get_time(n))")
+m("C11-revert-D22-no-restore-in-update-attrs", "C11", "actions/update_node_attrs.py",
+  "            for attr, value in self.prev_attrs.items():\n                self._set(attr, value)\n            raise", "            raise")
